@@ -799,6 +799,15 @@ type gSig struct {
 	Hashed, Unhash []subPkt
 	HashTag        [2]byte
 	MPIs           [][]byte
+	Bits           []int // the bit count written in front of each MPI (RFC 4880 3.2)
+}
+
+func (s gSig) mpis() []byte {
+	var out []byte
+	for i, x := range s.MPIs {
+		out = append(append(out, be16(s.Bits[i])...), x...)
+	}
+	return out
 }
 
 func (s gSig) body() []byte {
@@ -815,15 +824,15 @@ func (s gSig) body() []byte {
 		b = append(append(b, be16(len(u))...), u...)
 	}
 	b = append(b, s.HashTag[:]...)
-	return append(b, mpisBytes(s.MPIs)...)
+	return append(b, s.mpis()...)
 }
 
 func (s gSig) bytes() []byte { return s.Form.wrap(s.body()) }
 
 func (s gSig) sx() Sx {
 	m := SL{}
-	for _, x := range s.MPIs {
-		m = append(m, SB(x))
+	for i, x := range s.MPIs {
+		m = append(m, SL{I(s.Bits[i]), SB(x)})
 	}
 	return SL{s.Form.sx(), I(int(s.Version)), I(int(s.SigType)), I(int(s.Algo)), I(int(s.Hash)), SB(be32(s.Created)), SB(be64(s.Issuer)),
 		subsSx(s.Hashed), subsSx(s.Unhash), SB(s.HashTag[:]), m}
@@ -943,6 +952,15 @@ func randGSig(r *Rng, kind int) gSig {
 		}
 		s.Hashed, s.Unhash = h, u
 	}
+	// bit counts as real signatures have them: any value whose octet count is the MPI's length
+	s.Bits = nil
+	for _, x := range s.MPIs {
+		bits := 8 * len(x)
+		if len(x) > 0 {
+			bits -= r.Intn(8)
+		}
+		s.Bits = append(s.Bits, bits)
+	}
 	s.Form = randPForm(r, len(s.body()))
 	return s
 }
@@ -1019,6 +1037,7 @@ type lItem struct {
 	Align          int
 	Alias          int // >= 0: shares the data of that item, AliasOff octets into it
 	AliasOff       int
+	Whole          bool     // CHAR / INT8 / BIN entry that spans the whole store
 	Strs           []string // the strings of a string-typed item
 	Sig            *gSig    // the packet of a signature item
 	off            uint32
@@ -1086,7 +1105,7 @@ func layOut(r *Rng, items []lItem, regionTag uint32, mode int, residue int) (gHd
 	}
 	for _, i := range order {
 		it := &items[i]
-		if it.Alias >= 0 {
+		if it.Alias >= 0 || it.Whole {
 			continue
 		}
 		if r.Intn(4) == 0 {
@@ -1125,6 +1144,11 @@ func layOut(r *Rng, items []lItem, regionTag uint32, mode int, residue int) (gHd
 	if mode == 1 {
 		regionOff = uint32(len(store))
 		store = append(store, trailer...)
+	}
+	for i := range items {
+		if it := &items[i]; it.Whole {
+			it.off, it.Cnt = 0, uint32(len(store))
+		}
 	}
 	h := gHdr{Version: 1, Reserved: []byte{0, 0, 0, 0}, Store: store}
 	if r.Intn(8) == 0 {
@@ -1279,6 +1303,12 @@ func randLayout(r *Rng, n int) (g gPkg, truth Sx, sigs [4]*gSig) {
 				*items = append(*items, lItem{Tag: unknownTag(), Type: []uint32{1, 2, 7}[r.Intn(3)], Cnt: uint32(c), Alias: j, AliasOff: o})
 			}
 		}
+	}
+	if r.Intn(4) == 0 {
+		mainItems = append(mainItems, lItem{Tag: unknownTag(), Type: []uint32{1, 2, 7}[r.Intn(3)], Alias: -1, Whole: true})
+	}
+	if r.Intn(6) == 0 {
+		sigItems = append(sigItems, lItem{Tag: unknownTag(), Type: []uint32{1, 2, 7}[r.Intn(3)], Alias: -1, Whole: true})
 	}
 	sigMode, mainMode := []int{0, 1, 1, 2}[r.Intn(4)], []int{0, 1, 1, 2}[r.Intn(4)]
 	var sigIdx, mainIdx []lItem
